@@ -125,6 +125,10 @@ def tasks(tier):
                    sleeper="call", sleeper_async=True, before_sleep="call", bs_async=True,
                    max_unknown=None)
         out.append({"family": "task-cancel", "cfg": cfg, "entry": e, "bound": nf, "weight": 3})
+        if at is not None:
+            # the operation needs a tick to clean up after wait_for cancelled it
+            out.append({"family": "task-cancel", "cfg": dict(cfg, unwind_ticks=1), "entry": e,
+                        "bound": nf, "weight": 3})
     for init, e in itertools.product(BRK, ["Policy.call", "Policy.execute"]):
         cfg = dict(M=2, alphabet=ENDINGS, breaker=BRK[init], attempt_timeout=2, durs=[0, 3],
                    dur_free=True, max_unknown=None)
